@@ -114,11 +114,30 @@ def run_fonts(report, n, rng):
         by_index = {}  # N -> (css colour, alpha): one colour (and in COLRv0 one alpha) per index in a font
         srcs, expect = [], []
         for k in range(rng.randint(1, 4)):
-            shapes, exp = [], []
+            shapes, exp, grads = [], [], []
             for j in range(rng.randint(1, 3)):
                 x, y, w, h = 5 + 22 * j, 10 + 13 * k + 7 * j, 12 + 3 * j + k, 9 + 2 * k + 5 * j  # distinct outlines: no reuse
                 op = rng.choice([1.0, 1.0, 0.5, 0.25])
                 r = rng.random()
+                if not fmt.endswith("_0") and r < 0.25:
+                    # a linear gradient whose stops declare palette indices (opaque, so one member per stop)
+                    stops = []
+                    for so in (0, 1):
+                        if rng.random() < 0.7:
+                            nidx = rng.randint(0, 5)
+                            if nidx not in by_index:
+                                by_index[nidx] = (rng.choice(list(RGB)), 1.0)
+                            c = by_index[nidx][0]
+                            stops.append((f"var(--color{nidx}, {c})", RGB[c], nidx))
+                        else:
+                            c = rng.choice(list(RGB))
+                            stops.append((c, RGB[c], None))
+                    gid = f"g{k}_{j}"
+                    grads.append(f'<linearGradient id="{gid}" gradientUnits="userSpaceOnUse" x1="{x}" y1="{y}" x2="{x + w}" y2="{y + h}">'
+                                 + "".join(f'<stop offset="{so}" stop-color="{st[0]}"/>' for so, st in enumerate(stops)) + "</linearGradient>")
+                    shapes.append(f'<path d="M{x},{y} L{x + w},{y} L{x + w},{y + h} L{x},{y + h} Z" fill="url(#{gid})"/>')
+                    exp.append(("gradient", [(st[1], 1.0, st[2]) for st in stops], None))
+                    continue
                 if r < 0.1:
                     fill, rgb, idx = "currentColor", "current", None
                 elif r < 0.45:
@@ -137,7 +156,7 @@ def run_fonts(report, n, rng):
                 shapes.append(f'<path d="M{x},{y} L{x + w},{y} L{x + w},{y + h} L{x},{y + h} Z" fill="{fill}"' + (f' opacity="{op}"' if op != 1.0 else "") + "/>")
                 exp.append((rgb, op, idx))
             cps = (0x1F600 + k,)
-            srcs.append((build.filename_for(cps), '<svg xmlns="http://www.w3.org/2000/svg" viewBox="0 0 100 100">' + "".join(shapes) + "</svg>", cps))
+            srcs.append((build.filename_for(cps), '<svg xmlns="http://www.w3.org/2000/svg" viewBox="0 0 100 100"><defs>' + "".join(grads) + "</defs>" + "".join(shapes) + "</svg>", cps))
             expect.append(exp)
         case = dict(kind="e2e", format=fmt, sources=[s[1] for s in srcs])
         try:
@@ -151,7 +170,10 @@ def run_fonts(report, n, rng):
         members = set()
         for exp in expect:
             for rgb, op, idx in exp:
-                if rgb != "current":
+                if rgb == "gradient":
+                    for srgb, sop, sidx in op:
+                        members.add((srgb, 1.0, sidx))
+                elif rgb != "current":
                     members.add((rgb, op if v0 else 1.0, idx))
         indexed = {m[2]: m for m in members if m[2] is not None}
         free = sorted((m for m in members if m[2] is None), key=lambda m: (m[0], m[1]))
@@ -178,6 +200,16 @@ def run_fonts(report, n, rng):
                 probs.append(f"{g}: {len(layers)} layers for {len(exp)} shapes")
                 continue
             for li, (it, (rgb, op, idx)) in enumerate(zip(layers, exp)):
+                if rgb == "gradient":
+                    if it[2][0] != "linear" or len(it[2][1]) != len(op):
+                        probs.append(f"{g} layer {li}: expected a linear gradient with {len(op)} stops, found {it[2][0]}")
+                        continue
+                    for (so, srgb, salpha, sidx), (ergb, ealpha, eidx) in zip(it[2][1], op):
+                        if srgb != ergb or abs(salpha - ealpha) > 0.005:
+                            probs.append(f"{g} layer {li}: stop paints {srgb} alpha {salpha}, declared {ergb}")
+                        if eidx is not None and sidx != eidx:
+                            probs.append(f"{g} layer {li}: stop uses palette entry {sidx}, declared var(--color{eidx})")
+                    continue
                 kind, argb, aalpha, aidx = it[2][:4]
                 if rgb == "current":
                     if argb != "current":
